@@ -135,7 +135,7 @@ def call_function(f, args, maxsteps=2000, env=None):
     raise Unknown("%s: no return reached" % f.name)
 
 
-def run_straight(f, env, calls, stop, maxsteps=400, returns=False, start=None, stop_blocks=()):
+def run_straight(f, env, calls, stop, maxsteps=400, returns=False, start=None, stop_blocks=(), on_unknown=None):
     """Interpret function f from its entry, following branches by evaluating
     their conditions, executing integer assignments into env, until `stop(node)`
     returns True for a call node (returns that node) or the exit is reached."""
@@ -158,6 +158,8 @@ def run_straight(f, env, calls, stop, maxsteps=400, returns=False, start=None, s
                     raise Unknown("void return")
                 raise Returned(ev(x["a"][0], env, calls))
             if returns and k == "Call" and x.get("fn") not in (calls or {}):
+                if x.get("fn") in env.get("__ignore__", ()):
+                    continue            # a library call that does not touch the integers being followed
                 if "__prog__" in env and x.get("fn"):
                     env["__prog__"](x["fn"], [ev(a, env, calls) for a in x.get("a", ())])
                     continue
@@ -210,7 +212,13 @@ def run_straight(f, env, calls, stop, maxsteps=400, returns=False, start=None, s
         if b.noreturn:
             return None
         if b.term and b.term.get("cond") is not None and len(succs) == 2:
-            c = ev(b.term["cond"], env, calls)
+            try:
+                c = ev(b.term["cond"], env, calls)
+            except Unknown:
+                if on_unknown is None:
+                    raise
+                bid = on_unknown(b, succs)
+                continue
             bid = succs[0] if c else succs[1]
         else:
             nxt = [s for s in succs if s is not None]
